@@ -6,9 +6,9 @@ use std::collections::{HashMap, HashSet};
 use proc_macro2::{Ident, TokenStream};
 use quote::{format_ident, quote};
 use syn::{
-    parse_quote, spanned::Spanned, ConstParam, Expr, GenericParam, Generics, Item, LifetimeParam,
-    Path, Result, Type, TypeArray, TypeGroup, TypeParam, TypeParen, TypePath, TypeReference,
-    TypeSlice, TypeTuple, WhereClause, WherePredicate,
+    ext::IdentExt, parse_quote, spanned::Spanned, ConstParam, Expr, GenericParam, Generics, Item,
+    LifetimeParam, Path, Result, Type, TypeArray, TypeGroup, TypeParam, TypeParen, TypePath,
+    TypeReference, TypeSlice, TypeTuple, WhereClause, WherePredicate,
 };
 
 use crate::{deps::Dependencies, utils::format_generics};
@@ -152,7 +152,9 @@ impl DerivedTS {
         let generics = generics
             .type_params()
             .filter(|ty| !self.concrete.contains_key(&ty.ident))
-            .map(|ty| ty.ident.clone());
+            .map(|ty| ty.ident.clone())
+            .collect::<Vec<_>>();
+        let ts_names = generics.iter().map(|ident| ident.unraw().to_string());
         let name = quote![<Self as #crate_rename::TS>::name()];
         quote! {
             #(
@@ -166,9 +168,9 @@ impl DerivedTS {
                 impl #crate_rename::TS for #generics {
                     type WithoutGenerics = #generics;
                     type OptionInnerType = Self;
-                    fn name() -> String { stringify!(#generics).to_owned() }
+                    fn name() -> String { #ts_names.to_owned() }
                     fn inline() -> String { panic!("{} cannot be inlined", #name) }
-                    fn inline_flattened() -> String { stringify!(#generics).to_owned() }
+                    fn inline_flattened() -> String { #name }
                     fn decl() -> String { panic!("{} cannot be declared", #name) }
                     fn decl_concrete() -> String { panic!("{} cannot be declared", #name) }
                 }
